@@ -271,7 +271,7 @@ def second_compilation(doc, macros=None):
 CONSOLE_SCRIPT = os.path.join(os.path.dirname(sys.executable), "jasm")
 
 
-def cli(args, cwd, timeout=120, env_extra=None, entry="module"):
+def cli(args, cwd, timeout=120, env_extra=None, entry="module", stdin_text=None):
     """entry: "module" = python -m jasm.main; "script" = the installed console script (a three-line stub that calls
     jasm.main.main()), run by the same interpreter with the tree under test first on the path."""
     e = dict(os.environ)
@@ -280,5 +280,5 @@ def cli(args, cwd, timeout=120, env_extra=None, entry="module"):
     if env_extra:
         e.update(env_extra)
     head = [sys.executable, CONSOLE_SCRIPT] if entry == "script" and os.path.exists(CONSOLE_SCRIPT) else [sys.executable, "-m", "jasm.main"]
-    p = subprocess.run([*head, *args], cwd=cwd, capture_output=True, text=True, timeout=timeout, env=e)
+    p = subprocess.run([*head, *args], cwd=cwd, capture_output=True, text=True, timeout=timeout, env=e, **({"input": stdin_text} if stdin_text is not None else {"stdin": subprocess.DEVNULL}))
     return p.returncode, p.stdout, p.stderr
